@@ -7,6 +7,16 @@ out = []
 kf = json.loads((V / "known_findings.json").read_text())["findings"]
 props = [f"C{i:02d}" for i in range(1, 21)]
 claimed = {p.stem for p in (V / "harness/manifest_texts").glob("C*.json")}
+_ev = [json.loads(f.read_text()) for f in sorted((V / "evidence").glob("C*.json"))]
+_nfix = len(subprocess.run(["git", "-C", "/repo", "log", "--format=%h", "4564555..main"], capture_output=True, text=True).stdout.split())
+out.append("### A.0 Totals\n")
+out.append(f"* properties claimed: {len(claimed)} of 20 (not_applicable: {20 - len(claimed)})")
+out.append(f"* proof obligations (theorems of `Props/Cxx*.lean` + source-pin obligations) discharged / stated, summed over the last evidence files: "
+           f"{sum(e['coverage'].get('discharged', 0) for e in _ev)} / {sum(e['coverage'].get('obligations', 0) for e in _ev)}")
+out.append(f"* correspondence comparisons per quick sweep of all checks: {sum(e['coverage'].get('traces_validated_against_impl', 0) for e in _ev)}; oracle evaluations: "
+           f"{sum(sum(e['coverage'].get('oracle_sites', {}).values()) for e in _ev)}")
+out.append(f"* `fix:` commits on /repo main: {_nfix}; known findings recorded: {sum(1 for e in kf if e['status'] == 'finding')}")
+out.append(f"* seeded changes kept under `seeded/`: {len(list((V / 'seeded').glob('C*-*')))} (two independent rounds, 3 per property per round)\n")
 out.append("### A.1 Status per property (from the last committed evidence files)\n")
 out.append("| prop | claimed | theorems (discharged/stated) | correspondence comparisons | oracle evaluations | known findings | fix: commits | quick wall s |")
 out.append("|---|---|---|---|---|---|---|---|")
